@@ -548,8 +548,10 @@ func internalUnmarshal(v *internalStruct) (any, error) {
 		for marshaledMapKey, internalValue := range v.MapValues {
 			prkv := reflect.New(rkt)
 			if v.MapKeyInternal {
-				internalKey := &internalStruct{}
-				err := sonic.UnmarshalString(marshaledMapKey, internalKey)
+				// the nil key of an interface-typed key type is written as "null" (internalMarshal(nil) is
+				// nil): a nil *internalStruct reads back as the nil key
+				var internalKey *internalStruct
+				err := sonic.UnmarshalString(marshaledMapKey, &internalKey)
 				if err != nil {
 					return nil, fmt.Errorf("unmarshal map key[%v] to type[%s] fail: %v", marshaledMapKey, v.MapKeyType, err)
 				}
